@@ -516,7 +516,7 @@ pub fn c08(ctx: &Ctx) {
 
 pub fn c14(ctx: &Ctx) {
 	let mut rep = Report::new("C14");
-	let n = ctx.budget(1000, 20_000);
+	let n = ctx.budget(1000, 40_000);
 	let types = ctx.my_types();
 	for ops in &types {
 		if ops.dec.is_none() {
@@ -681,7 +681,7 @@ fn logical_len(v: &Val) -> Option<usize> {
 
 pub fn c18(ctx: &Ctx) {
 	let mut rep = Report::new("C18");
-	let n = ctx.budget(1000, 20_000);
+	let n = ctx.budget(1000, 100_000);
 	for ops in ctx.my_types() {
 		if ops.dec.is_none() {
 			continue;
@@ -873,7 +873,7 @@ pub const HAVE_HOOK: bool = cfg!(psc_verif);
 
 pub fn c19(ctx: &Ctx) {
 	let mut rep = Report::new("C19");
-	let n = ctx.budget(1000, 20_000);
+	let n = ctx.budget(1000, 100_000);
 	for ops in ctx.my_types() {
 		if ops.dec.is_none() {
 			continue;
